@@ -7,6 +7,7 @@ and the Gallina model (evaluated inside Coq with vm_compute) on the same cases a
 import fcntl
 import hashlib
 import json
+import contextlib
 import os
 import random
 import re
@@ -134,6 +135,34 @@ def ensure_build(prop=None):
 
 class Infrastructure(RuntimeError):
     """a failure of the tooling (coqc missing, build lock, disk) as opposed to a breakdown of the correspondence"""
+
+
+class ImplTimeout(Exception):
+    """the implementation (or the correspondence around it) did not finish within its time budget"""
+
+
+@contextlib.contextmanager
+def time_limit(seconds, what=""):
+    """SIGALRM-based budget for one call into the implementation (main thread only; nested use keeps the outer alarm's
+    remaining time).  A changed library that no longer terminates on a case (a walk that never sees its eos and runs to the
+    'practically infinite' default step limit, say) must become a verdict about that case, not a check that hangs."""
+    import signal
+    import time as _t
+
+    def _raise(signum, frame):
+        raise ImplTimeout(f"no result within {seconds} s: {what}")
+
+    old_handler = signal.signal(signal.SIGALRM, _raise)
+    old_left = signal.alarm(0)
+    start = _t.time()
+    signal.alarm(int(seconds) if not old_left else max(1, min(int(seconds), old_left)))
+    try:
+        yield
+    finally:
+        signal.alarm(0)
+        signal.signal(signal.SIGALRM, old_handler)
+        if old_left:
+            signal.alarm(max(1, old_left - int(_t.time() - start)))
 
 
 def regen_sources(prop):
